@@ -1050,6 +1050,70 @@ pub fn gen_pipe_drop_sweep(rng: &mut Rng) -> Program {
     finish(prog, &g)
 }
 
+/// C13: the resumer is used (or dropped) at every scheduling point of the context that holds the suspension: a pool
+/// thread, or a caller inside `sync` that took the suspended queue over because every pool thread is stalled elsewhere.
+pub fn gen_resume_sweep(rng: &mut Rng) -> Program {
+    let pool_max = rng.range(1, 2) as usize;
+    // 0: a pool thread runs the suspension, 1: every pool thread is stalled, a sync caller runs it
+    let ctx = rng.below(2);
+    let n_objs = 1 + if ctx == 1 { pool_max } else { 0 };
+    let mut g = Gen::new(rng, n_objs);
+    let o = 0;
+    let mut threads: Vec<Vec<Op>> = vec![];
+    let mut inj = vec![];
+    let mut victim = vec![];
+    if ctx == 1 {
+        let mut blockers = vec![];
+        for i in 0..pool_max {
+            let st = g.n_gates;
+            let gate = g.n_gates + 1;
+            g.n_gates += 2;
+            blockers.push({ let __k = OpKind::Desync { o: 1 + i, body: vec![Step::OpenGate(st), Step::BlockOn(gate)] }; g.op(__k) });
+            inj.push({ let __k = OpKind::WaitGate { g: st }; g.op(__k) });
+        }
+        threads.push(blockers);
+    }
+    let ready = g.n_gates;
+    g.n_gates += 1;
+    let h = g.handle();
+    if ctx == 0 {
+        // the pool thread that runs this goes on to the suspension behind it
+        inj.push({ let __k = OpKind::Desync { o, body: vec![Step::Mark, Step::Yield(1)] }; g.op(__k) });
+    } else if g.rng.permille(400) {
+        inj.push({ let __k = OpKind::Desync { o, body: vec![Step::Yield(1)] }; g.op(__k) });
+    }
+    // (ctx 1: the pool is stalled, so the request stays queued until the victim's sync drains the queue into it: the victim
+    // then holds the suspension, parked inside its own call)
+    inj.push({ let __k = OpKind::Suspend { o, h }; g.op(__k) });
+    inj.push({ let __k = OpKind::OpenGate { g: ready }; g.op(__k) });
+    inj.push({ let __k = OpKind::SweepWait; g.op(__k) });
+    // the resumer is obtained inside the injection (at once if the suspension has been reached, else as soon as it is)
+    inj.push({ let __k = OpKind::Await { h }; g.op(__k) });
+    inj.push({ let __k = if g.rng.permille(700) { OpKind::Resume { h } } else { OpKind::DropResumer { h } }; g.op(__k) });
+    inj.push({ let __k = OpKind::SweepDone; g.op(__k) });
+    // calls made during the suspension: they wait, and complete in order after it
+    victim.push({ let __k = OpKind::WaitGate { g: ready }; g.op(__k) });
+    if ctx == 1 {
+        victim.push({ let __k = OpKind::Mark; g.op(__k) });
+    }
+    for _ in 0..g.rng.range(1, 3) {
+        match g.rng.weighted(&[5, 2, 1]) {
+            0 => victim.push({ let __k = OpKind::Sync { o, body: vec![] }; g.op(__k) }),
+            1 => victim.push({ let __k = OpKind::Desync { o, body: vec![] }; g.op(__k) }),
+            _ => victim.push({ let __k = OpKind::TrySync { o, body: vec![] }; g.op(__k) }),
+        }
+    }
+    if ctx == 1 && !victim.iter().any(|op| matches!(op.k, OpKind::Sync { .. })) {
+        victim.push({ let __k = OpKind::Sync { o, body: vec![] }; g.op(__k) });
+    }
+    threads.push(inj);
+    threads.push(victim);
+    let mut prog = base_program(pool_max, n_objs);
+    prog.phases = vec![Phase { ctl: vec![], threads, env_gates: vec![], env_streams: vec![] }];
+    prog.faults = Faults { spurious_cv_permille: if g.rng.permille(300) { 100 } else { 0 }, spurious_park_permille: if g.rng.permille(300) { 100 } else { 0 }, self_wake_permille: 0, dup_wake_permille: 0, keep_waker_permille: 0 };
+    finish(prog, &g)
+}
+
 /// C12: a read by the consumer (the back-pressure release) is injected at every scheduling point of the context that polls the
 /// input, while items arrive one at a time so that the producer is throttled at the start of a job again and again.
 pub fn gen_pipe_read_sweep(rng: &mut Rng) -> Program {
